@@ -180,7 +180,17 @@ class Setup:
                 diagram += [(g, g, 1) for g in nm]
             if sorted(p % len(pairs) for p in order) != list(range(len(pairs))):
                 raise HarnessError("edge_order must be a permutation")
-            self.G = coxeter.CoxeterGroup(diagram=diagram)
+            if case.get("both"):
+                # redundant data: the documentation (and the warning) say that the diagram is
+                # what counts when a matrix is passed as well
+                import warnings as _w
+                decoy = [[1 if i == j else 3 for j in range(n)] for i in range(n)]
+                with _w.catch_warnings():
+                    _w.simplefilter("ignore")
+                    self.G = coxeter.CoxeterGroup(diagram=diagram, matrix=np.array(decoy))
+                ctx.label("diagram-and-matrix-given")
+            else:
+                self.G = coxeter.CoxeterGroup(diagram=diagram)
             og = list(self.G.ordered_gens)
             ctx.check(sorted(og) == sorted(nm), "ordered_gens is a permutation of the diagram's "
                       "generators", got=og, want=nm)
@@ -297,6 +307,7 @@ def presentation(draw, n):
         d["edge_order"] = list(draw(st.permutations(list(range(npairs)))))
         d["flips"] = [draw(st.integers(0, 1)) for _ in range(npairs)]
         d["diag"] = draw(st.booleans())
+        d["both"] = draw(st.integers(0, 2)) == 0
     else:
         d["ctor"] = "matrix" if n != 3 or k != 2 else "triangle"
         d["style"] = draw(st.sampled_from(["alpha", "alphanum", "default"]))
